@@ -48,6 +48,14 @@ def gen_case(rng):
             steps.append({"cmd": "restore-foreign", "foreign_clock": rng.choice([[T0], [T0 - 1000], [T0 + 10 ** 7], [5]]), "clock": clock})
         else:
             steps.append({"cmd": "gc", "clock": clock})
+    if rng.random() < 0.15:
+        # ladder of leftovers: k executions of one experiment fail (or are aborted) within one clock second, each
+        # leaving an unrecorded directory T, T+1, ...; the next execution in that same second needs yet another one
+        tgt = rng.choice(["//:e1", "//a:e3", "//a:e2"])
+        ck = [T0 + 77]
+        ladder = [{"cmd": "run", "target": tgt, "again": True, "outcome": rng.choice(["fail", "fail", "abort"]), "victim": tgt, "jobs": None, "clock": ck} for _ in range(rng.randint(2, 4))]
+        ladder.append({"cmd": "run", "target": tgt, "again": True, "outcome": "ok", "victim": tgt, "jobs": None, "clock": ck})
+        steps = ladder + steps[:4]
     return {"steps": steps, "clock_mode": clock_mode, "hostile": realrun.hostile_choice(rng)}
 
 
